@@ -8,6 +8,7 @@ import (
 	"time"
 
 	goat "github.com/avos-io/goat"
+	"github.com/jonboulle/clockwork"
 )
 
 // c01Reattach: a client reconnects to the proxy under its old name while the old connection is still
@@ -245,4 +246,86 @@ func c01DemuxAfterCancel(r *Run) {
 			return
 		}
 	}
+}
+
+// c01HttpSlowUnary: twelve unary calls at once over the HTTP transport whose handlers take long (on
+// the transport's clock: the server node runs on a fake clock that is advanced by 15 s while they are
+// blocked). Eight occupy the worker pool, the ninth holds the read loop, the rest wait inside the
+// peer's ServeHTTP. Once the handlers are released every caller gets the reply to its own request and
+// the handler ran exactly once per request: waiting is not failing.
+func c01HttpSlowUnary(r *Run) {
+	if !r.Want("httpslow") {
+		return
+	}
+	clk := clockwork.NewFakeClock()
+	topoHTTPServerOpts = []goat.GoatOverHttpOption{goat.WithClock(clk)}
+	t, err := newTopo("http", nil, nil)
+	topoHTTPServerOpts = nil
+	if err != nil {
+		r.Count("httpslow.no_listener")
+		return
+	}
+	defer t.close()
+	const callers = 12
+	in := map[string]any{"transport": "http", "concurrent_unary_calls": callers, "handlers": "blocked while the transport's clock advances 15 s"}
+	r.Progress("httpslow", in)
+	gate := make(chan struct{})
+	var mu sync.Mutex
+	ran := map[string]int{}
+	entered := make(chan struct{}, callers)
+	t.impl.SetUnary(func(ctx context.Context, req []byte) ([]byte, error) {
+		mu.Lock()
+		ran[string(req)]++
+		mu.Unlock()
+		entered <- struct{}{}
+		<-gate
+		return unaryF(req), nil
+	})
+	type res struct {
+		req string
+		got []byte
+		err error
+	}
+	out := make(chan res, callers)
+	for k := 0; k < callers; k++ {
+		go func(k int) {
+			req := fmt.Sprintf("slow-%02d", k)
+			ctx, cancel := context.WithTimeout(context.Background(), 3*hangTimeout)
+			defer cancel()
+			got, err := callUnary(ctx, t.cc, []byte(req))
+			out <- res{req, got, err}
+		}(k)
+	}
+	for i := 0; i < 8; i++ {
+		select {
+		case <-entered:
+		case <-time.After(hangTimeout):
+		}
+	}
+	time.Sleep(50 * time.Millisecond) // the other requests are waiting inside the peer's ServeHTTP
+	for i := 0; i < 3; i++ {
+		clk.Advance(5 * time.Second)
+		time.Sleep(20 * time.Millisecond)
+	}
+	close(gate)
+	for k := 0; k < callers; k++ {
+		select {
+		case x := <-out:
+			r.Eval("httpslow/"+x.req, true)
+			if x.err != nil || string(x.got) != string(unaryF([]byte(x.req))) {
+				r.Violate("httpslow.none", "ops", "a unary call over the HTTP transport did not get its handler's reply (its request had to wait for the peer's reader)", in, fmt.Sprintf("%s: err=%v reply=%x", x.req, x.err, x.got), "F(own request)")
+				continue
+			}
+			mu.Lock()
+			n := ran[x.req]
+			mu.Unlock()
+			if n != 1 {
+				r.Violate("httpslow.once", "ops", "the handler did not run exactly once for a request", in, fmt.Sprintf("%s: %d", x.req, n), 1)
+			}
+		case <-time.After(4 * hangTimeout):
+			r.Violate("httpslow.hang", "ops", "unary calls over the HTTP transport did not return", in, goroutineDump(), nil)
+			return
+		}
+	}
+	r.Count("c01.httpslow")
 }
